@@ -266,7 +266,15 @@ func (d *Decoder) Write(p []byte) (n int, err error) {
 			// reading code earlier should already catch
 			// overlong things and return ErrStringLength,
 			// but keep this as a last resort.
-			const varIntOverhead = 8 // conservative
+			//
+			// The bound must not be smaller than the longest
+			// incomplete field representation: two strings of
+			// maxStrLen bytes, each preceded by its length,
+			// and readVarInt accepts integers of up to 10
+			// bytes. With a smaller allowance the outcome
+			// depends on how the header block is split
+			// across Write calls.
+			const varIntOverhead = 10 // longest integer readVarInt accepts
 			if d.maxStrLen != 0 && int64(len(d.buf)) > 2*(int64(d.maxStrLen)+varIntOverhead) {
 				return 0, ErrStringLength
 			}
